@@ -11,6 +11,7 @@
   returned" is observable.
 -/
 import MosVerif.Util
+-- @component fallback MosVerif.Fallback.run
 namespace MosVerif.Fallback
 
 /-- Outcome of one leg: an error, or a message (opaque identity `tag`, TC flag). -/
